@@ -17,7 +17,8 @@ import time
 from typing import List
 
 from bounded import common as bc
-from bounded.c04 import Violations, eval_item, fc_words, make_item, rc_words, replay_snippet
+from bounded.c04 import (Violations, cut_note, deadline_for, eval_item, fc_words, make_item, pmap_until, rc_words,
+                         replay_snippet)
 from specs import treesem as ts
 
 
@@ -45,12 +46,14 @@ def _isvalid_snippet(text: str) -> str:
             f"print(run(is_valid_expression({('Muss ' + text)!r}, set_cer)))")
 
 
-def check_trees(ctx, name: str, trees: List[ts.Tree], exhaustive: bool, bound: str) -> None:
+def check_trees(ctx, name: str, trees: List[ts.Tree], exhaustive: bool, bound: str, deadline_a: float,
+                deadline_b: float, chunk: int = 6000) -> None:
     bc.configure_inject()
     # ------------------------------------------------------------------------------------------- clause A
     t0 = time.time()
     items = [make_item(t, [(rw, fw) for rw in rc_words(t) for fw in fc_words(t)]) for t in trees]
-    results = bc.pmap(eval_item, items)
+    results = pmap_until(eval_item, items, deadline_a, chunk=chunk)
+    exh_a, bound_a = exhaustive and len(results) == len(items), bound + cut_note(len(results), len(items))
     viol = Violations(ctx, name + "/raises<=>structurally-invalid")
     evaluations, distinct, seen, samples, n_invalid = 0, 0, set(), [], 0
     for t, item, res in zip(trees, items, results):
@@ -81,11 +84,12 @@ def check_trees(ctx, name: str, trees: List[ts.Tree], exhaustive: bool, bound: s
     ctx.bounded(name + "/raises<=>structurally-invalid", evaluations, distinct,
                 "distinct (expression text, requirement assignment, format truth assignment) triples whose tree "
                 f"contains at least one O/X composition ({n_invalid} of {len(trees)} trees are structurally invalid)",
-                samples, exhaustive=exhaustive, bound=bound + " x all 3^m * 2^n assignments", seconds=time.time() - t0)
+                samples, exhaustive=exh_a, bound=bound_a + " x all 3^m * 2^n assignments", seconds=time.time() - t0)
     # ------------------------------------------------------------------------------------------- clause B
     t0 = time.time()
     texts = [it[0] for it in items]
-    verdicts = bc.pmap(isvalid_item, texts)
+    verdicts = pmap_until(isvalid_item, texts, deadline_b, chunk=chunk)
+    exh_b, bound_b = exhaustive and len(verdicts) == len(texts), bound + cut_note(len(verdicts), len(texts))
     viol = Violations(ctx, name + "/is_valid_expression")
     seen, samples = set(), []
     for t, text, v in zip(trees, texts, verdicts):
@@ -111,10 +115,10 @@ def check_trees(ctx, name: str, trees: List[ts.Tree], exhaustive: bool, bound: s
                      {"expression": "Muss " + text, "structurally_valid": is_valid, "observed": repr(v[1])[:300]},
                      recheck, _isvalid_snippet(text))
     viol.flush()
-    ctx.bounded(name + "/is_valid_expression", len(texts), len(seen),
+    ctx.bounded(name + "/is_valid_expression", len(verdicts), len(seen),
                 "distinct expression texts containing at least one O/X composition (one call of the validity check "
                 "each; the check itself evaluates under all generated content evaluation results)",
-                samples, exhaustive=exhaustive, bound=bound, seconds=time.time() - t0)
+                samples, exhaustive=exh_b, bound=bound_b, seconds=time.time() - t0)
 
 
 def run(ctx, tier: str, seed: int) -> None:
@@ -123,11 +127,17 @@ def run(ctx, tier: str, seed: int) -> None:
               "generate_possible_content_evaluation_results yields >=1 result whenever a requirement/format key is "
               "present (C18)")
     rng = random.Random(seed)
+    deadline = deadline_for(tier, time.time())
     leaves = ts.default_leaves()
     by_n = ts.enumerate_trees(3 if tier == "quick" else 4, leaves)
-    check_trees(ctx, "<=3-leaves", by_n[1] + by_n[2] + by_n[3], True,
-                "all in-domain trees (valid or not) with <=3 leaves over keys 1,2,3/501,502/901,902")
+    three = list(by_n[3])
+    rng.shuffle(three)  # so that a prefix cut off by the time budget is a seeded sample
+    check_trees(ctx, "<=3-leaves", by_n[1] + by_n[2] + three, True,
+                "all in-domain trees (valid or not) with <=3 leaves over keys 1,2,3/501,502/901,902",
+                *((deadline - 15.0, deadline) if tier == "quick" else (deadline - 300.0, deadline - 250.0)),
+                chunk=2000 if tier == "quick" else 6000)
     if tier != "quick":
         n = 40000
         four = rng.sample(by_n[4], min(n, len(by_n[4])))
-        check_trees(ctx, "4-leaves", four, False, f"seeded sample of {n} of {len(by_n[4])} in-domain trees with 4 leaves")
+        check_trees(ctx, "4-leaves", four, False, f"seeded sample of {n} of {len(by_n[4])} in-domain trees with 4 leaves",
+                    deadline - 120.0, deadline)
